@@ -146,7 +146,7 @@ impl Table {
         let maybe_raw_handle = index_block_iter.current();
         if maybe_raw_handle.is_none() {
             // Offset to the key does not exist in the index so the key is not stored in this file
-            return Ok(None);
+            return Err(ReadError::KeyNotFound);
         }
 
         let (_key, raw_handle) = maybe_raw_handle.unwrap();
